@@ -48,6 +48,11 @@ theorem waveRun_nil (p : MapIn) (cfg : WCfg) (m : Int → T) : WaveRun p cfg [] 
 theorem waveRun_cons (p : MapIn) (cfg : WCfg) (o : OpRow) (rows : List OpRow) (m m1 m2 : Int → T)
     (h1 : WaveStep p cfg o m m1) (h2 : WaveRun p cfg rows m1 m2) : WaveRun p cfg (o :: rows) m m2 := RunOK.cons h1 h2
 
+theorem waveRun_head {p : MapIn} {cfg : WCfg} {o : OpRow} {rows : List OpRow} {m m' : Int → T}
+    (h : WaveRun p cfg (o :: rows) m m') : ∃ m1, WaveStep p cfg o m m1 ∧ WaveRun p cfg rows m1 m' := by
+  cases h with
+  | cons h1 h2 => exact ⟨_, h1, h2⟩
+
 /-! ### signal level: `sigRun` of the rows is `simWave` of the eight-index program -/
 
 theorem slot_append (xs ys : List Wv) (h : xs.length = 4) (i : Fin 4) : slot (xs ++ ys) i = slot xs i := by
